@@ -522,7 +522,7 @@ func intRange(t types.Type) (lo, hi string, signed bool, bits int, ok bool) {
 // WellTyped returns an SMT formula stating that term (of the sort of t) is a
 // legal Go value of type t (integer ranges, non-negative lengths).
 func (u *Univ) WellTyped(t types.Type, term string, depth int) string {
-	if depth > 4 {
+	if depth > 6 {
 		return "true"
 	}
 	if _, ok := sortOverrides[t.String()]; ok {
@@ -553,9 +553,11 @@ func (u *Univ) WellTyped(t types.Type, term string, depth int) string {
 	case *types.Slice:
 		// len is a Go int: 0 <= len <= 2^63-1
 		parts := []string{fmt.Sprintf("(>= (sl.len %s) 0)", term), fmt.Sprintf("(<= (sl.len %s) 9223372036854775807)", term), fmt.Sprintf("(=> (sl.nil %s) (= (sl.len %s) 0))", term, term)}
-		ew := u.WellTyped(tt.Elem(), fmt.Sprintf("(select (sl.arr %s) wt!i)", term), depth+1)
+		// the bound index is named after the nesting depth: nested slices must not capture the outer index
+		iv := fmt.Sprintf("wt!i%d", depth)
+		ew := u.WellTyped(tt.Elem(), fmt.Sprintf("(select (sl.arr %s) %s)", term, iv), depth+1)
 		if ew != "true" {
-			parts = append(parts, fmt.Sprintf("(forall ((wt!i Int)) (! (=> (and (<= 0 wt!i) (< wt!i (sl.len %s))) %s) :pattern ((select (sl.arr %s) wt!i))))", term, ew, term))
+			parts = append(parts, fmt.Sprintf("(forall ((%s Int)) (! (=> (and (<= 0 %s) (< %s (sl.len %s))) %s) :pattern ((select (sl.arr %s) %s))))", iv, iv, iv, term, ew, term, iv))
 		}
 		return and(parts...)
 	}
